@@ -444,6 +444,7 @@ func checkC04(c *Ctx, r *Report) {
 	r.rule("C04.R11", "a declared tag number reaches the encoder in full width: the number parsed from the `ber:` tag is neither parsed nor converted in fewer bits than the member that holds it", 1)
 	r.rule("C04.R12", "the length a string / octet-string encoder announces is the number of octets it writes: len of the value itself, in octets (not a count of characters)", 2)
 	r.rule("C04.R13", "the tag number written for a member comes from its `tagNum:` parameter only (shared with C16.R7)", 1)
+	r.rule("C04.R14", "the string-type keywords of the `ber:` tags select the universal tag numbers X.680 gives those types (utf8 12, ia5 22, graphic 25 ...)", 3)
 	r.rule("C04.R6", "errors are returned: recursive calls, unsupported constructs, top level", 4)
 	r.rule("C04.R7", "the content encoder is stored on every path that uses it (no nil-interface call)", 2)
 	r.rule("C04.R9", "tag-number, length and INTEGER octet counts are exactly the minimal number of digits for every value (exact interval partition), digits written most significant first", 6)
@@ -553,6 +554,7 @@ func checkC04(c *Ctx, r *Report) {
 	// ---- R6 error propagation
 	checkParseWidths(c, r, "C04.R11", c.fn("cdr/asn", "parseFieldParameters"))
 	c04LenIsOctetCount(c, r, "C04.R12")
+	c04StringTypeTags(c, r, "C04.R14")
 	c16TagNumberWriters(c, r, "C04.R13")
 	c04ErrorPropagation(c, r, mk, "C04.R6")
 	top := c.fn("cdr/asn", "BerMarshalWithParams")
@@ -1404,5 +1406,81 @@ func c04LenIsOctetCount(c *Ctx, r *Report, rule string) {
 	}
 	if n == 0 {
 		r.viol(rule, "encoders", c.rel(pkg.Syntax[0].Pos()), "no string / octet-string encoder with Len and Encode found (anchor moved)")
+	}
+}
+
+// c04StringTypeTags (C04.R14): keyword of the tag language -> universal tag number (X.680 8.4).
+var x680StringTags = map[string]int64{"utf8": 12, "numeric": 18, "printable": 19, "t61": 20, "teletex": 20, "videotex": 21, "ia5": 22, "graphic": 25, "visible": 26, "iso646": 26, "general": 27, "universal": 28, "bmp": 30}
+
+func c04StringTypeTags(c *Ctx, r *Report, rule string) {
+	pkg := c.pkg("cdr/asn")
+	n := 0
+	one := func(keyword string, v ssa.Value, pos string) {
+		want, known := x680StringTags[keyword]
+		k, isK := constInt(v)
+		if !known || !isK {
+			return
+		}
+		n++
+		r.check(k == want, rule, "keyword "+keyword, pos, fmt.Sprintf("%s selects universal tag %d", keyword, k), fmt.Sprintf("the keyword %q selects universal tag %d, X.680 gives that string type the tag %d: a value of this type that shows its universal tag (top level, untagged or EXPLICIT member) is encoded as another type", keyword, k, want))
+	}
+	for _, f := range c.ModFuncs {
+		if f.Pkg == nil || f.Pkg.Pkg != pkg.Types {
+			continue
+		}
+		eachInstr(f, func(_ *ssa.BasicBlock, _ int, ins ssa.Instruction) {
+			switch x := ins.(type) {
+			case *ssa.Store:
+				fa, ok := x.Addr.(*ssa.FieldAddr)
+				if !ok || fieldName(fa) != "stringType" {
+					return
+				}
+				// the keyword: a string comparison whose matching edge dominates the store
+				for _, b := range f.Blocks {
+					if len(b.Instrs) == 0 || len(b.Succs) != 2 {
+						continue
+					}
+					iff, ok := b.Instrs[len(b.Instrs)-1].(*ssa.If)
+					if !ok {
+						continue
+					}
+					bo, ok := iff.Cond.(*ssa.BinOp)
+					if !ok || bo.Op != token.EQL {
+						continue
+					}
+					kw, ok := constString(bo.Y)
+					if !ok {
+						kw, ok = constString(bo.X)
+					}
+					if ok && b.Succs[0] != b.Succs[1] && edgeDominates(b, b.Succs[0], x.Block()) {
+						one(kw, x.Val, posOf(c, x))
+					}
+				}
+			case *ssa.MapUpdate:
+				// a keyword table (map literal of the package)
+				if kw, ok := constString(x.Key); ok {
+					one(kw, x.Value, posOf(c, x))
+				}
+			}
+		})
+	}
+	// package-level map literals are filled by the package initialiser
+	if init := pkg.Types.Scope(); init != nil {
+		for _, m := range c.Prog.Package(pkg.Types).Members {
+			fn, ok := m.(*ssa.Function)
+			if !ok || fn.Name() != "init" {
+				continue
+			}
+			eachInstr(fn, func(_ *ssa.BasicBlock, _ int, ins ssa.Instruction) {
+				if mu, ok := ins.(*ssa.MapUpdate); ok {
+					if kw, ok := constString(mu.Key); ok {
+						one(kw, mu.Value, posOf(c, mu))
+					}
+				}
+			})
+		}
+	}
+	if n == 0 {
+		r.viol(rule, "keywords", c.rel(pkg.Syntax[0].Pos()), "no string-type keyword of the tag language found (anchor moved)")
 	}
 }
